@@ -3,7 +3,9 @@
 PLAN = dict(
     level="fault_enumeration",
     rule="clause 1 (c12.fidelity, c12.retry): one case = one operation entry point (SM2 sign/encrypt/GenerateKey/key-exchange init+respond, "
-         "ecdh GenerateKey, SM2 algorithms over NIST P-256 (math/big path; keys naming the curve as elliptic.P256() and as its generic *CurveParams, "
+         "ecdh GenerateKey, the SM2 entry points with key objects that name the SM2 curve by a copy of its parameters (math/big path of the sm2 package, "
+         "same rule), RepondKeyExchange with the initiator's point in a struct whose Curve field says sm2.P256(), the parameter copy, P-224, P-256, "
+         "P-384, P-521 or nil (coordinates always a valid SM2 point: the draw belongs to the object's own curve), SM2 algorithms over NIST P-256 (math/big path; keys naming the curve as elliptic.P256() and as its generic *CurveParams, "
          "the latter also under purego/ia32; digests of 20..64 bytes), SM9 master key generation, sign, WrapKey, Encrypt in five modes, "
          "key-exchange init+respond; every exported wrapper is a variant) executed on a scripted random stream: structured streams "
          "(leading blocks 0, n-1, n, n+1, 2^256-1, >=n, the block that is zero after the documented XOR; then a valid block with top bits set, "
@@ -15,7 +17,12 @@ PLAN = dict(
          "explains. c12.reentrant: every ordered pair (outer operation A, inner operation B) of the catalogue x Read index k of A x placement: "
          "B runs to completion (own script, same or another goroutine) inside A's k-th Read, before the bytes are served or after they were "
          "copied into the buffer; both outputs must then satisfy the fidelity oracle on their own stream (no bits of a sampled block shared "
-         "between overlapping operations). c12.history (object histories): one case = (kept object: one sm2.PrivateKey signing and encrypting to its "
+         "between overlapping operations). SM9 key objects are taken, by seed, from a pool of provenances (master.PublicKey(), userKey.MasterPublic(), decoded from the raw / ASN.1 / "
+         "compressed encodings; user keys generated or decoded together with their master public key). c12.retryfaults: the product forced "
+         "algorithm-level retry x failing source: one case = (SM2 sign r=0 / r+k=n / s=0 on the SM2 curve [both paths] and NIST P-256, SM2 encrypt t=0 "
+         "on the SM2 curve [both paths] and NIST P-256, SM9 WrapKey K=0; every entry point variant) x (1 or 2 forced retries, each followed by 0 or 1 "
+         "out-of-range block; quick: (1,0) and (2,1)) x (every later Read index) x (five fault kinds; source ending at the block boundary, +1, +16, "
+         "+31 bytes): error, every returned value nil or empty, no panic. c12.history (object histories): one case = (kept object: one sm2.PrivateKey signing and encrypting to its "
          "own public half [SM2 curve; NIST P-256], one sm2.KeyExchange [peer given at construction or later by SetPeerParameters] and one SM9 "
          "key-exchange object used again and again in both roles, one sm9.SignPrivateKey, one sm9.EncryptMasterPublicKey wrapping and encrypting, "
          "the four key generators one after the other, any catalogue operations on new objects) x (pattern of 2..5 calls, each with its OWN scripted "
@@ -40,6 +47,7 @@ PLAN = dict(
     + both("c12.faults", ["avx2", "purego"], shards=(2, 8), floor=1000)
     + both("c12.eof", ["avx2", "purego"], shards=(1, 4), floor=500)
     + both("c12.reentrant", ["avx2", "purego"], shards=(2, 8), floor=500)
+    + both("c12.retryfaults", ["avx2", "purego"], shards=(1, 4), floor=1000)
     + both("c12.history", ["avx2", "purego"], shards=(2, 8), floor=300)
     + [J("c12.history", ["ia32"], "ia32", shards=(4, 8), floor=300)],
     exhaustive_note="fault enumeration is exhaustive over (entry point x rejected-blocks-first j in 0..2 (thorough 0..4) x Read index k in 0..R+1 x "
@@ -75,7 +83,9 @@ CLAIM = dict(
          "failed in every enumerated way: the object may refuse, otherwise key and confirmations are exactly those of the scalar the healthy call "
          "sampled (nothing derived from 0, a rejected block or bytes of the failed call); earlier generated keys, signatures and ciphertexts keep "
          "giving the same answer with the kept object after failed calls. "
-         "Every Read position of every operation is failed in five ways, and every premature end of stream by byte "
+         "The peer's point of a key-exchange step may name any curve (or none) in its Curve field and SM9 key objects may come from any decoder: "
+         "the draw follows the rule of the object's own algorithm. Forced algorithm-level retries are combined with every later fault position and "
+         "kind: nothing the discarded attempt computed comes back with the error. Every Read position of every operation is failed in five ways, and every premature end of stream by byte "
          "offset: the operation must return an error, no output, and must not panic. Fault enumeration for the second clause, exploration of "
          "streams for the first.",
     design_ref="DESIGN.md 6 (C12)",
